@@ -21,19 +21,18 @@ Definition Lambda_inv_exponent_stmt := forall m, 2 <= m <= 200 -> lambda_inv m (
 Lemma lambda_inv_exponent_sweep : Lambda_inv_exponent_stmt.
 Proof. intros m Hm. apply Z.eqb_eq. revert m Hm. apply (sweep lambda_inv_ok). vm_cast_no_check (eq_refl true). Qed.
 
-(* on prime powers (where the header's "coincide except for m = 8" is true) lambda IS the maximal orbit size, 8 included *)
-Definition lambda_pp_ok (m : Z) : bool :=
-  match factors m with [_] => lambda m (factors m) =? max_orbit_def m | _ => true end.
-Definition Lambda_orbit_prime_power_stmt := forall m p e, 2 <= m <= 200 -> factors m = [(p, e)] -> lambda m (factors m) = max_orbit_def m.
-Lemma lambda_orbit_prime_power_sweep : Lambda_orbit_prime_power_stmt.
-Proof.
-  intros m p e Hm Hf. assert (H : lambda_pp_ok m = true) by (clear - Hm; revert m Hm; apply (sweep lambda_pp_ok); vm_cast_no_check (eq_refl true)).
-  unfold lambda_pp_ok in H. rewrite Hf in H. rewrite Hf. apply Z.eqb_eq. rewrite <- Hf. rewrite <- Hf in H. exact H.
-Qed.
-(* REFUTED for composite m with a repeated prime: the code (and the model, which follows it) returns the exponent of the unit
-   group; the orbit of 2 modulo 12 is {2, 4, 8} (frag/C13.findings.json, fix-8) *)
-Definition Lambda_orbit_composite_refuted_stmt :=
-  lambda 12 (factors 12) = 2 /\ max_orbit_def 12 = 3 /\ lambda 24 (factors 24) = 2 /\ max_orbit_def 24 = 4 /\
-  lambda 40 (factors 40) = 4 /\ max_orbit_def 40 = 6 /\ lambda 8 (factors 8) = 3 /\ max_orbit_def 8 = 3.
-Lemma lambda_orbit_composite_refuted : Lambda_orbit_composite_refuted_stmt.
+(* lambda IS the maximal orbit size over all elements (body of 01ad5d5), every m <= 200 *)
+Definition lambda_orbit_ok (m : Z) : bool := lambda m (factors m) =? max_orbit_def m.
+Definition Lambda_orbit_stmt := forall m, 2 <= m <= 200 -> lambda m (factors m) = max_orbit_def m.
+Lemma lambda_orbit_sweep : Lambda_orbit_stmt.
+Proof. intros m Hm. apply Z.eqb_eq. revert m Hm. apply (sweep lambda_orbit_ok). vm_cast_no_check (eq_refl true). Qed.
+
+(* HISTORY: the body before 01ad5d5 returned the exponent of the unit group for every m other than 2, 3, 4, 8 *)
+Definition lambda_before_fix8 (m : Z) (factors : list (Z * Z)) : Z :=
+  if m =? 2 then 1 else if (m =? 3) || (m =? 4) then 2 else if m =? 8 then 3 else lambda_base factors.
+Definition Lambda_before_fix8_refuted_stmt :=
+  lambda_before_fix8 12 (factors 12) = 2 /\ max_orbit_def 12 = 3 /\ lambda 12 (factors 12) = 3 /\
+  lambda_before_fix8 24 (factors 24) = 2 /\ max_orbit_def 24 = 4 /\ lambda 24 (factors 24) = 4 /\
+  lambda_before_fix8 40 (factors 40) = 4 /\ max_orbit_def 40 = 6 /\ lambda 40 (factors 40) = 6.
+Lemma lambda_before_fix8_refuted : Lambda_before_fix8_refuted_stmt.
 Proof. repeat split; vm_compute; reflexivity. Qed.
